@@ -257,6 +257,165 @@ Section CacheTestProofs.
       + intros c [].
     - unfold tqueries. apply in_map. rewrite Heq. apply in_or_app. right. left. reflexivity.
   Qed.
+  (* ---------------- the whole path loop under ANY completion order of the solver pool *)
+  Notation sstate := (sstate id formula model).
+  Notation tjob := (tjob id formula model).
+  Notation sched_step := (sched_step id id_eqb formula model low refine_changes).
+  Notation sched_run := (sched_run id id_eqb formula model low refine_changes).
+  Notation take_done := (take_done id formula model).
+  Notation start_job := (start_job id id_eqb formula model low refine_changes).
+
+  (* a submitted assertion query in the run with the cache and the same one in the run without *)
+  Definition job_rel (ps : list tpath) (a b : tjob) : Prop :=
+    match a, b with
+    | (i, q, st), (i', q', st') =>
+        i = i' /\ q = q' /\ In (KAssert, q) ps /\
+        match st, st' with
+        | None, None => True
+        | Some o, Some o' =>
+            strip o = strip o' /\ core_of id model o' = None /\
+            (forall c, o = Unsat (Some c) -> exists b, low b q = Unsat (Some c))
+        | _, _ => False
+        end
+    end.
+
+  Definition srelated (ps : list tpath) (a b : sstate) : Prop :=
+    related (tqueries ps) (s_t id formula model a) (s_t id formula model b) /\
+    s_next id formula model a = s_next id formula model b /\
+    Forall2 (job_rel ps) (s_jobs id formula model a) (s_jobs id formula model b).
+
+  Lemma in_tqueries : forall (ps : list tpath) k q, In (k, q) ps -> In q (tqueries ps).
+  Proof. intros ps k q H. unfold tqueries. apply in_map_iff. exists (k, q). auto. Qed.
+
+  Lemma start_job_rel : forall ps cores j la lb,
+    low_core_sound2 (tqueries ps) -> stable_queries id formula (tqueries ps) -> off_complete_on ps ->
+    witnessed_q id id_eqb formula Vr holds_r (tqueries ps) cores ->
+    Forall2 (job_rel ps) la lb ->
+    Forall2 (job_rel ps) (start_job true cores j la) (start_job false [] j lb).
+  Proof.
+    intros ps cores j la lb Hs Hst Hc Hw H. induction H as [|[[i q] st] [[i' q'] st'] la lb Hj H IH]; [constructor|].
+    simpl. constructor; [|exact IH].
+    destruct Hj as [Hi [Hq [Hin Hst']]]. subst i' q'.
+    destruct st as [o|]; destruct st' as [o'|]; try contradiction.
+    - exact (conj eq_refl (conj eq_refl (conj Hin Hst'))).
+    - destruct (Nat.eqb i j); [|repeat split; auto].
+      repeat split; auto.
+      + exact (assert_any_state (tqueries ps) cores q Hst Hw (in_tqueries ps _ q Hin) (Hc q Hin)).
+      + unfold CacheTestModel.assert_solve, consume, gen_assert_solve. apply e2e_off_no_core.
+      + intros c Hc'. unfold CacheTestModel.assert_solve, consume, gen_assert_solve in Hc'.
+        eapply e2e_core_origin. exact Hc'.
+  Qed.
+
+  Lemma take_done_rel : forall ps j la lb,
+    Forall2 (job_rel ps) la lb ->
+    match take_done j la, take_done j lb with
+    | Some (o, la'), Some (o', lb') =>
+        Forall2 (job_rel ps) la' lb' /\ strip o = strip o' /\ core_of id model o' = None /\
+        exists q, In (KAssert, q) ps /\ forall c, o = Unsat (Some c) -> exists b, low b q = Unsat (Some c)
+    | None, None => True
+    | _, _ => False
+    end.
+  Proof.
+    intros ps j la lb H. induction H as [|[[i q] st] [[i' q'] st'] la lb Hj H IH]; [exact I|].
+    destruct Hj as [Hi [Hq [Hin Hst']]]. subst i' q'. simpl.
+    destruct (Nat.eqb i j).
+    - destruct st as [o|]; destruct st' as [o'|]; try contradiction.
+      + destruct Hst' as [E [N O]]. repeat split; auto. exists q. split; auto.
+      + destruct (take_done j la) as [[o la']|]; destruct (take_done j lb) as [[o' lb']|]; try contradiction; auto.
+        destruct IH as [F R]. split; [|exact R]. constructor; [|exact F]. repeat split; auto.
+    - destruct (take_done j la) as [[o la']|]; destruct (take_done j lb) as [[o' lb']|]; try contradiction; auto.
+      destruct IH as [F R]. split; [|exact R]. constructor; [|exact F]. repeat split; auto.
+  Qed.
+
+  Lemma callback_witnessed_any : forall qs cores (o : reply) q,
+    low_core_sound id id_eqb formula model Vr holds_r low qs -> In q qs ->
+    (forall c, o = Unsat (Some c) -> exists b, low b q = Unsat (Some c)) ->
+    witnessed_q id id_eqb formula Vr holds_r qs cores ->
+    witnessed_q id id_eqb formula Vr holds_r qs (callback cores o).
+  Proof.
+    intros qs cores o q Hs Hq Ho Hw c Hc. apply callback_in in Hc. destruct Hc as [Hc | [Hc Hne]]; [apply Hw; exact Hc|].
+    destruct (Ho c Hc) as [b Hb]. exists q. split; [exact Hq|]. eapply Hs; eauto.
+  Qed.
+
+  Lemma sched_step_related : forall ps a b e,
+    low_core_sound2 (tqueries ps) -> stable_queries id formula (tqueries ps) -> off_complete_on ps ->
+    (forall p, e = TPath p -> In p ps) -> srelated ps a b ->
+    srelated ps (sched_step true a e) (sched_step false b e).
+  Proof.
+    intros ps a b e Hs Hst Hc He [Hr [Hn Hj]].
+    destruct e as [[k q] | j | j].
+    - (* the main loop takes the next path *)
+      assert (Hp : In (k, q) ps) by (apply He; reflexivity).
+      destruct k; unfold CacheTestModel.sched_step; cbn [s_t s_jobs s_next].
+      + split; [exact Hr|]. split; [rewrite Hn; reflexivity|].
+        apply Forall2_app; [exact Hj|]. constructor; [|constructor]. rewrite Hn. repeat split; auto.
+      + split; [apply (step_related ps); auto|]. split; [rewrite Hn; reflexivity | exact Hj].
+      + split; [apply (step_related ps); auto|]. split; [rewrite Hn; reflexivity | exact Hj].
+      + split; [apply (step_related ps); auto|]. split; [rewrite Hn; reflexivity | exact Hj].
+    - (* a worker enters solve_end_to_end *)
+      unfold CacheTestModel.sched_step; cbn [s_t s_jobs s_next].
+      split; [exact Hr|]. split; [exact Hn|].
+      destruct Hr as [Hw [Hb Ho]]. rewrite Hb. apply start_job_rel; auto.
+    - (* a done-callback runs *)
+      unfold CacheTestModel.sched_step.
+      pose proof (take_done_rel ps j _ _ Hj) as T.
+      destruct (take_done j (s_jobs id formula model a)) as [[o la']|];
+        destruct (take_done j (s_jobs id formula model b)) as [[o' lb']|]; try contradiction.
+      + destruct T as [F [E [N [q [Hin Ho]]]]]. destruct Hr as [Hw [Hb Hobs]].
+        apply observe_eq in Hobs. destruct Hobs as [Hout [Hk Hnm]].
+        split; [|split; [exact Hn | exact F]]. cbn [s_t].
+        split; [|split]; cbn [t_cores].
+        * apply (callback_witnessed_any (tqueries ps) _ o q); auto; [apply core_sound2_r; exact Hs | eapply in_tqueries; eauto].
+        * rewrite Hb. apply callback_no_core. exact N.
+        * unfold CacheTestModel.observe. cbn [t_outs t_stuck t_normal].
+          rewrite !map_app. cbn [map]. rewrite Hout, E, Hk, Hnm. reflexivity.
+      + split; [exact Hr|]. split; [exact Hn | exact Hj].
+  Qed.
+
+  Lemma sched_paths_in : forall evs p, In (TPath p) evs -> In p (sched_paths id formula evs).
+  Proof.
+    induction evs as [|e evs IH]; intros p H; [destruct H|].
+    destruct H as [H | H]; [subst e; left; reflexivity|].
+    destruct e; simpl; [right|idtac|idtac]; apply IH; exact H.
+  Qed.
+
+  Lemma sched_fold_related : forall ps rest a b,
+    low_core_sound2 (tqueries ps) -> stable_queries id formula (tqueries ps) -> off_complete_on ps ->
+    (forall p, In (TPath p) rest -> In p ps) -> srelated ps a b ->
+    srelated ps (fold_left (sched_step true) rest a) (fold_left (sched_step false) rest b).
+  Proof.
+    intros ps rest. induction rest as [|e rest IH]; intros a b Hs Hst Hc Hsub Hr; [exact Hr|].
+    simpl. apply IH; auto.
+    - intros p Hp. apply Hsub. right. exact Hp.
+    - apply sched_step_related; auto. intros p Hp. apply Hsub. left. exact Hp.
+  Qed.
+
+  (* TRANSPARENCY under any schedule: same outputs (in the order the callbacks ran), same counters, and the same
+     queries still pending, with and without the cache *)
+  Theorem sched_transparent : forall evs,
+    let ps := sched_paths id formula evs in
+    low_core_sound2 (tqueries ps) -> stable_queries id formula (tqueries ps) -> off_complete_on ps ->
+    observe (s_t id formula model (sched_run true evs)) = observe (s_t id formula model (sched_run false evs)) /\
+    map fst (s_jobs id formula model (sched_run true evs)) = map fst (s_jobs id formula model (sched_run false evs)) /\
+    sched_verdict id id_eqb formula model low refine_changes true evs =
+    sched_verdict id id_eqb formula model low refine_changes false evs.
+  Proof.
+    intros evs ps Hs Hst Hc.
+    assert (R : srelated ps (sched_run true evs) (sched_run false evs)).
+    { unfold CacheTestModel.sched_run. apply sched_fold_related; auto.
+      - intros p Hp. apply sched_paths_in. exact Hp.
+      - split; [|split; [reflexivity | constructor]].
+        split; [intros c []|split; reflexivity]. }
+    destruct R as [[Hw [Hb Ho]] [Hn Hj]].
+    assert (J : map fst (s_jobs id formula model (sched_run true evs)) = map fst (s_jobs id formula model (sched_run false evs))).
+    { clear -Hj. induction Hj as [|[[i q] st] [[i' q'] st'] la lb H Hj IH]; [reflexivity|].
+      destruct H as [Hi [Hq _]]. subst. simpl. rewrite IH. reflexivity. }
+    split; [exact Ho|]. split; [exact J|].
+    unfold CacheTestModel.sched_verdict.
+    destruct (s_jobs id formula model (sched_run true evs)) as [|x la]; destruct (s_jobs id formula model (sched_run false evs)) as [|y lb];
+      try discriminate; [|reflexivity].
+    apply observe_eq in Ho. destruct Ho as [Hout [Hk Hnm]]. rewrite Hk, Hnm. f_equal. apply strip_verdict. exact Hout.
+  Qed.
 End CacheTestProofs.
 
 (* ================================================================== why the un-refined consumers must not look up
